@@ -57,6 +57,8 @@ def random_table(rng, nfaces, p_link=0.8):
         al = [[a, tbl[f][a]] for a in ("X", "Y") if tbl[f][a] != [None, None] or rng.random() < 0.3]
         rng.shuffle(al)
         out.append([f, al])
+    if rng.random() < 0.6:
+        rng.shuffle(out)          # the faces may be listed in any order
     return out
 
 
